@@ -340,7 +340,18 @@ func (r Relation) Format(f fmt.State, verb rune) {
 	fu.WriteString(f, "{")
 
 	attrs := r.attrs.GetSorted()
-	fu.Fprintf(f, "|%s| ", strings.Join(attrs, ", "))
+	// The |a, b| heading syntax only admits identifiers. Relations with any other
+	// attribute name are written as a set of tuples, whose names can be quoted.
+	heading := true
+	for _, attr := range attrs {
+		if !identRE.MatchString(attr) {
+			heading = false
+			break
+		}
+	}
+	if heading {
+		fu.Fprintf(f, "|%s| ", strings.Join(attrs, ", "))
+	}
 	projection := r.projectionBasedOnNames(attrs)
 	notFirst := false
 	for i := r.rows.OrderedRange(projection); i.Next(); {
@@ -349,7 +360,19 @@ func (r Relation) Format(f fmt.State, verb rune) {
 		} else {
 			notFirst = true
 		}
-		fu.Format(i.Values().project(projection), f, verb)
+		row := i.Values().project(projection)
+		if heading {
+			fu.Format(row, f, verb)
+			continue
+		}
+		fu.WriteString(f, "(")
+		for j, v := range row.values() {
+			writeSep(f, j, ", ")
+			fu.WriteString(f, TupleNameRepr(attrs[j]))
+			fu.WriteString(f, ": ")
+			fu.Format(v, f, 'v')
+		}
+		fu.WriteString(f, ")")
 	}
 
 	fu.WriteString(f, "}")
